@@ -175,8 +175,41 @@ def stability_lemmas(prop, seed):
     return out
 
 
+def consume_before_await(mod, cls, fname):
+    """asyncio: a pending callback is removed from the table before the coroutine can suspend, so a duplicate ACK handled
+    while the callback is running finds nothing (at-most-once under every interleaving at suspension points)."""
+    t0 = time.time()
+    name = '%s.%s.%s/gate.callback-consumed-before-any-await' % (mod, cls, fname)
+    found = source.find_method(mod, cls, fname)
+    if not found or found[0] != mod:
+        return ob(name, 'undecided', 'gate', t0, 'function not found')
+    fn = found[2]
+    dels = [n for n in ast.walk(fn) if isinstance(n, ast.Delete) and 'callbacks' in ast.unparse(n)]
+    pops = [n for n in ast.walk(fn) if isinstance(n, ast.Call) and isinstance(n.func, ast.Attribute) and n.func.attr == 'pop' and 'callbacks' in ast.unparse(n.func.value)]
+    awaits = [n for n in ast.walk(fn) if isinstance(n, ast.Await)]
+    consumed = dels + pops
+    if not consumed:
+        return ob(name, 'refuted', 'gate', t0, 'the callback entry is never removed')
+    first_consume = min((n.lineno, n.col_offset) for n in consumed)
+    in_finally = False
+    for t in ast.walk(fn):
+        if isinstance(t, ast.Try):
+            for st in t.finalbody:
+                if any(x in consumed for x in ast.walk(st)):
+                    in_finally = True
+    early = [a for a in awaits if (a.lineno, a.col_offset) < first_consume]
+    if early or (in_finally and awaits):
+        return ob(name, 'refuted', 'gate', t0, ['an await can suspend the coroutine while the callback is still registered',
+                                               'schedule: a duplicate ACK for the same id is handled while the first invocation awaits'])
+    return ob(name, 'proved', 'gate', t0)
+
+
 def run(prop, tier, seed):
     out = []
+    if prop == 'C06':
+        out.append(consume_before_await('async_manager', 'AsyncManager', 'trigger_callback'))
+    if prop == 'C09':
+        out.append(consume_before_await('async_client', 'AsyncClient', '_handle_ack'))
     if prop == 'C04':
         out.append(gate_g1('async_server', 'AsyncServer', 'disconnect', ('is_connected', 'can_disconnect'), 'pre_disconnect', True))
         out.append(gate_g1('async_server', 'AsyncServer', '_handle_disconnect', ('is_connected',), 'pre_disconnect', True))
